@@ -326,9 +326,12 @@ def opFaults (args : List String) (impl : String) : Verdict :=
             -- "Eof": the data source / stream ends at this read (short read). The exact-read loops turn that
             -- into an UnexpectedEof error of their own (not the injected one: no `*`)
             let kinds := if (o == "data" || o == "r") && name != "mixed" then kinds0 ++ ["Eof"] else kinds0
+            -- `Interrupted` on the async operations: no retry loops there, reported like any other kind
+            -- (evaluated as `Other` in the model, which treats all kinds but UnexpectedEof / ConnectionReset alike)
+            let kinds := if name.endsWith "-fsm" || name == "mixed" then kinds ++ ["Interrupted"] else kinds
             (evs.zipIdx.filter fun (_, k) => k % (max stride 1) == 0).map fun (e, k) =>
               s!"{o}@{k}[{e.label}] " ++ " ".intercalate (kinds.map fun kd0 =>
-                let kd := if kd0 == "Eof" then "UnexpectedEof" else kd0
+                let kd := if kd0 == "Eof" then "UnexpectedEof" else if kd0 == "Interrupted" then "Other" else kd0
                 -- the byte encoders have a fault-aware model function; the others use the call skeleton
                 let res :=
                   if name.startsWith "enc" then
@@ -355,7 +358,7 @@ def opFaults (args : List String) (impl : String) : Verdict :=
                     match fo, faultTerminal name d bs kind ranges with
                     | some fo, some f => f (some ⟨fo, k, kk⟩)
                     | _, _ => expectFault name e kd
-                let res := if kd0 == "Eof" then res.replace "*" "" else res
+                let res := if kd0 == "Eof" then res.replace "*" "" else if kd0 == "Interrupted" then res.replace "Other" "Interrupted" else res
                 s!"{kd0}={res}/a0/p1")
           -- the twin's own call log must be the skeleton (two independent descriptions of "the k-th call")
           let twinOk : Bool := match faultCalls name d bs kind ranges with
